@@ -668,3 +668,74 @@ Proof.
   - intros perm Hp. apply sqrt_le_1_alt. unfold Rdiv. apply Rmult_le_compat_r; [exact Hn|].
     apply min_sum_le_each. apply in_map. exact Hp.
 Qed.
+
+(* ------------------------------------------------------------------ the pair list over steps and run boundaries *)
+Section PairListRuns.
+  Variables (freq : Z) (r0 : R) (r0v : option V3) (en ed : Z) (tol : R) (cell : option V3).
+  Local Notation frame := (list atomR * list atomR)%type.
+  Local Notation full fr := (cv_coordnum Rops r0 r0v en ed tol cell (fst fr) (snd fr)).
+  Local Notation build fr := (pairlist_build Rops r0 r0v en ed tol cell (fst fr) (snd fr)).
+  Local Notation run := (pl_run Rops freq r0 r0v en ed tol cell).
+
+  Lemma pl_run_length st rel (frames : list frame) : length (fst (run st rel frames)) = length frames.
+  Proof.
+    revert st rel. induction frames as [|fr rest IH]; intros st rel; cbn [pl_run]; [reflexivity|].
+    destruct (pl_step Rops freq r0 r0v en ed tol cell st rel fr) as [st1 v].
+    specialize (IH st1 (Z.succ rel)). destruct (run st1 (Z.succ rel) rest) as [vs st2]. cbn [fst length] in *. f_equal. exact IH.
+  Qed.
+  (* at every step whose relative number is a multiple of the frequency the value is the full sum for the current
+     coordinates, whatever the list held before (also garbage) *)
+  Lemma pl_run_rebuild st rel (frames : list frame) k fr : nth_error frames k = Some fr ->
+    ((rel + Z.of_nat k) mod freq = 0)%Z -> nth_error (fst (run st rel frames)) k = Some (full fr).
+  Proof.
+    revert st rel k. induction frames as [|f0 rest IH]; intros st rel k Hk Hm; [destruct k; discriminate|].
+    cbn [pl_run]. destruct (pl_step Rops freq r0 r0v en ed tol cell st rel f0) as [st1 v] eqn:Es.
+    specialize (IH st1 (Z.succ rel)). destruct (run st1 (Z.succ rel) rest) as [vs st2]. cbn [fst] in *.
+    destruct k as [|k]; cbn [nth_error] in *.
+    - injection Hk as ->. unfold pl_step in Es. rewrite Z.add_0_r in Hm. rewrite Hm, Z.eqb_refl in Es.
+      injection Es as _ <-. reflexivity.
+    - apply IH; [exact Hk|]. replace (Z.succ rel + Z.of_nat k)%Z with (rel + Z.of_nat (S k))%Z by lia. exact Hm.
+  Qed.
+  (* in particular at the first step of every run of a session *)
+  Lemma pl_session_first st (runs : list (list frame)) j rn fr : nth_error runs j = Some rn -> nth_error rn 0 = Some fr ->
+    exists vs, nth_error (pl_session Rops freq r0 r0v en ed tol cell st runs) j = Some vs /\ nth_error vs 0 = Some (full fr).
+  Proof.
+    revert st j. induction runs as [|r1 rest IH]; intros st j Hj H0; [destruct j; discriminate|].
+    cbn [pl_session]. destruct (run st 0%Z r1) as [vs st1] eqn:Er.
+    destruct j as [|j]; cbn [nth_error] in *.
+    - injection Hj as Hj. subst r1. exists vs. split; [reflexivity|].
+      assert (H := pl_run_rebuild st 0%Z rn 0 fr H0 (Zmod_0_l freq)). rewrite Er in H. exact H.
+    - apply IH; assumption.
+  Qed.
+  (* while the atoms do not move after a rebuild the list stays exact *)
+  Lemma pl_run_static fr st rel n : 0 <= tol -> (st = build fr \/ (rel mod freq = 0)%Z) ->
+    fst (run st rel (repeat fr n)) = repeat (full fr) n.
+  Proof.
+    intros Ht. revert st rel. induction n as [|n IH]; intros st rel Hst; [reflexivity|].
+    cbn [repeat pl_run]. unfold pl_step.
+    destruct (Z.eqb (rel mod freq) 0) eqn:E.
+    - specialize (IH (build fr) (Z.succ rel) (or_introl eq_refl)).
+      destruct (run (build fr) (Z.succ rel) (repeat fr n)) as [vs st2]. cbn [fst] in *. rewrite IH. reflexivity.
+    - destruct Hst as [->|Hm]; [|apply Z.eqb_neq in E; contradiction].
+      specialize (IH (build fr) (Z.succ rel) (or_introl eq_refl)).
+      destruct (run (build fr) (Z.succ rel) (repeat fr n)) as [vs st2]. cbn [fst] in *. rewrite IH.
+      f_equal. apply coordnum_pairlist_exact. exact Ht.
+  Qed.
+  (* at every step the value is at most the full sum for the current coordinates: a stale list can only drop pairs
+     (those that were beyond the margin, func <= -tolerance/2, at the last rebuild) *)
+  Lemma pl_run_le (npairs : nat) st rel (frames : list frame) : length st = npairs ->
+    Forall (fun fr : frame => length (all_pairs (fst fr) (snd fr)) = npairs) frames ->
+    Forall2 (fun v (fr : frame) => v <= full fr) (fst (run st rel frames)) frames.
+  Proof.
+    revert st rel. induction frames as [|fr rest IH]; intros st rel Hst Hall; cbn [pl_run]; [constructor|].
+    apply Forall_cons_iff in Hall. destruct Hall as [Hfr Hrest].
+    unfold pl_step. destruct (Z.eqb (rel mod freq) 0).
+    - specialize (IH (build fr) (Z.succ rel)).
+      destruct (run (build fr) (Z.succ rel) rest) as [vs st2]. cbn [fst] in *. constructor; [lra|].
+      apply IH; [|exact Hrest]. unfold pairlist_build. rewrite map_length. exact Hfr.
+    - specialize (IH st (Z.succ rel)).
+      destruct (run st (Z.succ rel) rest) as [vs st2]. cbn [fst] in *. constructor.
+      + apply coordnum_pairlist_le. rewrite Hfr. exact Hst.
+      + apply IH; assumption.
+  Qed.
+End PairListRuns.
